@@ -72,6 +72,7 @@ def r7_end_to_end(run, tree):
              "in another unit) denotes the same quantity afterwards, also when the operation is repeated", "D7 fold of core/array.py and core/vector.py with numpy ufuncs (out= writes into the buffer it is given) and pint units as models", "", floor=32)
     from . import quantity_stack as qs
     qs.check_inplace_stack(run, tree)
+    qs.check_inplace_mixed_stack(run, tree)
 
 
 def r_conversion_history(run, tree):
